@@ -15,13 +15,57 @@ def tiers(qchecks, qshards, tchecks, tshards=12, qtimeout=600, ttimeout=3000, **
 
 CONF = {
     "C01": tiers(2500, 4, 60000, 12),
+    "C02": tiers(2500, 4, 40000, 12),
+    "C10": tiers(2500, 4, 40000, 12),
+    "C11": tiers(2500, 4, 40000, 12),
+    "C13": tiers(1500, 4, 25000, 12),
     "C12": tiers(20000, 2, 200000, 12),
 }
 
 HOOK_COMMITS = []
 NOT_APPLICABLE = {}
 
+GRAM_NOTE = ("Trusts the harness's reference parser (gram/model.go, a ~300-line clean-room restatement of the documented "
+             "semantics, itself validated by agreement with the real parser on hundreds of thousands of cases and by planted-mutation probes), "
+             "the generator's domain (<=7 productions, inputs <=40 tokens over a 12-token vocabulary, one stateful lexer profile with "
+             "WS/Comment elision) and rapid. Cases whose reference evaluation exceeds 20000 steps are discarded and counted, not judged.")
+
 META = {
+    "C01": dict(
+        engine="gram", design_ref="2, 3/C01",
+        technique="differential property test: generated grammars x inputs vs reference parser (rapid)",
+        level="Generated grammars (every operator, unions, recursion, typed literals, case folding, trap shapes) x lookahead ladder x "
+              "AllowTrailing x sampled/mutated inputs are parsed by the real parser and by an independent reference parser; acceptance "
+              "and the AST (field by field, incl. Token/[]Token fields and union member types) must agree. Exploration of a very large "
+              "space: ~40k cases quick, millions thorough, with measured shares of abandoned attempts, commits at exactly k+1, typed literals.",
+        note=GRAM_NOTE + " One recorded known finding (F2) is excluded by signature."),
+    "C02": dict(
+        engine="gram", design_ref="3/C02",
+        technique="property test with trap-biased grammar generator; one-directional oracle from the reference derivation (rapid)",
+        level="Grammars are generated around trap shapes (captures, then a completed or half-failed sub-production, then a failing tail, inside "
+              "every kind of choice point) and the AST of every accepted parse is checked to contain nothing that the accepted derivation "
+              "did not capture. Exploration; the share of cases that actually pass an abandoned attempt with captures is measured (non-trivial count).",
+        note=GRAM_NOTE),
+    "C10": dict(
+        engine="gram", design_ref="3/C10",
+        technique="metamorphic property test: re-spacing / re-commenting of generated inputs (rapid)",
+        level="Each generated token sequence is rendered to two texts differing only in elided tokens; after confirming via Parser.Lex that the "
+              "non-elided sequences are equal, acceptance and all captured fields must be equal. Grammars that name elided types are checked "
+              "against the reference parser's PeekAny rule. Exploration over grammars x inputs x renderings x elision sets x lookahead.",
+        note=GRAM_NOTE + " Known finding F2 (Token fields) excluded by signature."),
+    "C11": dict(
+        engine="gram", design_ref="3/C11",
+        technique="property test: model-free token-run invariants + exact values from the reference derivation (rapid)",
+        level="For accepted parses of generated grammars whose nodes carry Pos/EndPos/Tokens (plain, embedded, convertible type) the check "
+              "verifies run contiguity, containment, sibling disjointness/order, root end, Pos<=EndPos and the exact Tokens/Pos/EndPos values "
+              "computed from the reference derivation. Exploration.",
+        note=GRAM_NOTE + " Pos/EndPos are only judged for grammars that do not name elided types (the statement's domain)."),
+    "C13": dict(
+        engine="gram", design_ref="3/C13",
+        technique="metamorphic property test over the lookahead ladder (rapid)",
+        level="Each generated (grammar without ~/lookahead groups, input) pair is parsed with 7 parsers sharing AST types and differing only in "
+              "UseLookahead (0,1,2,3,5,MaxLookahead,unlimited); success at k must imply success with a deeply equal AST at every larger k'. Exploration.",
+        note=GRAM_NOTE),
     "C12": dict(
         engine="props", design_ref="3/C12",
         technique="model-based stateful property test (rapid state machine vs explicit cursor model)",
